@@ -64,6 +64,7 @@ def plan(pid, tier):
         "C06": [job("GATED", "race", arg="C06", timeout=1500, parts=8)],
         "C15": [job("GATED", "race", arg="C15", timeout=1500, parts=8)],
         "C08": [job("C08", "race", timeout=1500, parts=8)] + ([job("C08", "race", timeout=1500, parts=4, procs=p) for p in (1, 2, 4)] if T else []),
+        "C09": [job("C09", "race", timeout=1500, parts=8)],
         "C10": [job("C10", "ptr", timeout=1500, parts=6)],
         "C11": [job("C11", "ptr", timeout=1500, parts=8)],
         "C12": [job("C12", "race", timeout=1500, parts=6), job("C12", "ptr", arg="bulk", timeout=1500, parts=6)],
